@@ -1,11 +1,12 @@
 /-
   Source-level tie for pg_filenode.map (property C20), translator style (see `ReadsKit`): every constant-bounded read
   of the current `ParseRelMapFile` is one whole member of PostgreSQL's `RelMapFile` (relmapper.c: magic i32,
-  num_mappings i32, mappings[62] of {mapoid, mapfilenode}, crc, pad → 512 bytes) as laid out by `Spec.encRelMapRaw`,
-  namely the member its assignment target names.
+  num_mappings i32, mappings[62] of {mapoid, mapfilenode}, crc, pad → 512 bytes in PostgreSQL 12–15; mappings[64], crc,
+  no pad → 524 bytes in PostgreSQL 16) as laid out by `Spec.encRelMapRaw`, namely the member its assignment target
+  names.  The two members read at constant offsets (magic, num_mappings) have the same span in both layouts.
   Not covered (not constant-bounded in the source, hence absent from `Generated.SrcReads`): the mapping entries
   (`data[offset : offset+4]`, `offset` a loop variable) and the crc (`data[crcOffset : crcOffset+4]`, `crcOffset` a
-  variable initialised with a constant expression).
+  variable computed from the layout's MAX_MAPPINGS since fixes/control/09).
 -/
 import PgVerif.Generated.Src
 import PgVerif.Spec.Relmap
@@ -50,6 +51,44 @@ theorem enc_read (magic count : Nat) (m : RelMap) (h : m.WF) (name : List Char) 
   have := read_member layout (members magic count m) [] (fits magic count m h) name lo hi hs
   simpa [enc_eq] using this
 
+/-! ### the PostgreSQL 16 layout -/
+
+/-- `RelMapFile` of relmapper.c in PostgreSQL 16 (MAX_MAPPINGS = 64, no padding) -/
+def layout16 : Layout :=
+  [("magic".toList, 4), ("num_mappings".toList, 4), ("mappings".toList, 512), ("crc".toList, 4)]
+
+def members16 (magic count : Nat) (m : RelMap) : List Bytes :=
+  [le 4 magic, le 4 count, m.mappings.flatMap encMapping ++ m.unused, le 4 m.crc]
+
+theorem enc_eq16 (magic count : Nat) (m : RelMap) (h : m.WF16) :
+    encRelMapRaw magic count m = (members16 magic count m).flatten := by
+  have hp : m.pad = [] := List.eq_nil_of_length_eq_zero h.2.2.2.1
+  simp [encRelMapRaw, members16, hp]
+
+theorem fits16 (magic count : Nat) (m : RelMap) (h : m.WF16) : Fits layout16 (members16 magic count m) := by
+  obtain ⟨h1, h2, _, _, _⟩ := h
+  unfold relmapMax16 at h1 h2
+  simp only [Fits, members16, layout16, Layout.widths, List.map_cons, List.map_nil, le_length, List.length_append,
+    mappings_length, h2]
+  have : 8 * m.mappings.length + 8 * (64 - m.mappings.length) = 512 := by omega
+  rw [this]
+
+/-- the file is 524 bytes -/
+theorem enc_length16 (magic count : Nat) (m : RelMap) (h : m.WF16) : (encRelMapRaw magic count m).length = 524 := by
+  rw [enc_eq16 magic count m h, fits_length layout16 _ (fits16 magic count m h)]; decide
+
+theorem enc_read16 (magic count : Nat) (m : RelMap) (h : m.WF16) (name : List Char) (lo hi : Nat)
+    (hs : layout16.span name = some (lo, hi)) :
+    ∃ (i : Nat) (p : Bytes), (layout16[i]?).map Prod.fst = some name ∧ (members16 magic count m)[i]? = some p ∧
+      ((encRelMapRaw magic count m).drop lo).take (hi - lo) = p := by
+  have := read_member layout16 (members16 magic count m) [] (fits16 magic count m h) name lo hi hs
+  simpa [enc_eq16 magic count m h] using this
+
+/-- the members read at constant offsets lie at the same bytes in both layouts; the crc does not (504 / 520) -/
+theorem common_spans : layout16.span "magic".toList = layout.span "magic".toList ∧
+    layout16.span "num_mappings".toList = layout.span "num_mappings".toList ∧
+    layout.span "crc".toList = some (504, 508) ∧ layout16.span "crc".toList = some (520, 524) := by decide
+
 /-- assignment target in relmap.go ↦ member of `RelMapFile` -/
 def expect : Expect :=
   [fld "rm.Magic".toList layout "magic".toList, fld "rm.NumMappings".toList layout "num_mappings".toList]
@@ -62,6 +101,19 @@ theorem ParseRelMapFile_reads_are_spec_fields :
 /-- and both members of the table are still read -/
 theorem ParseRelMapFile_expected_fields_are_read :
     expectedAreRead expect Generated.SrcReads.ParseRelMapFile = true := by decide
+
+/-- the same against the PostgreSQL 16 layout -/
+def expect16 : Expect :=
+  [fld "rm.Magic".toList layout16 "magic".toList, fld "rm.NumMappings".toList layout16 "num_mappings".toList]
+
+theorem ParseRelMapFile_reads_are_spec_fields_v16 :
+    readsAreFields expect16 Generated.SrcReads.ParseRelMapFile = true := by decide
+
+theorem ParseRelMapFile_expected_fields_are_read_v16 :
+    expectedAreRead expect16 Generated.SrcReads.ParseRelMapFile = true := by decide
+
+example : (⟨[], zeros 512, 7, []⟩ : RelMap).WF16 ∧ layout16.span "crc".toList = some (520, 524) :=
+  ⟨by simp [RelMap.WF16, relmapMax16], by decide⟩
 
 /-- the hypotheses of `enc_read` are satisfiable: an empty map, and the span of `num_mappings` is bytes 4..8 -/
 example : (⟨[], zeros 496, 7, zeros 4⟩ : RelMap).WF ∧ layout.span "num_mappings".toList = some (4, 8) :=
